@@ -315,7 +315,7 @@ pub fn exercise(site: Site, v: u64) -> Outcome {
                 let dev = if site == Site::RimtRcMappings { Op::RimtRc { id: 2, seg: 0, ats: false, pri: false, maps: Some(maps) } } else { Op::RimtPlat { id: 2, name_len: 0, maps: Some(maps) } };
                 run_table(Kind::Rimt, Ctor::Plain, vec![Op::RimtIommu { id: 1, base: Some(0x1000), pci: None, prox: None, wires: None }, dev])
             }
-            Site::RimtPlatformName => run_table(Kind::Rimt, Ctor::Plain, vec![Op::RimtPlat { id: 3, name_len: v as u16, maps: None }]),
+            Site::RimtPlatformName => run_table(Kind::Rimt, Ctor::Plain, vec![Op::RimtPlat { id: 3, name_len: v as u32, maps: None }]),
             Site::ViotNodeCount => {
                 // one IOMMU (the only handle needed) followed by v - 1 endpoints
                 let mut ops = vec![Op::ViotMmioIommu(0x1000)];
@@ -349,7 +349,7 @@ pub fn exercise(site: Site, v: u64) -> Outcome {
                 Outcome::Returned(if field == node_off { None } else { Some(format!("endpoint output-node field {} for a node at offset {}", field, node_off)) })
             }
             Site::SlitLocalities => run_table(Kind::Slit, Ctor::Slit(v as u32), vec![]),
-            Site::RhctIsaLength => run_table(Kind::Rhct, Ctor::Rhct(1), vec![Op::RhctIsa(v as u16)]),
+            Site::RhctIsaLength => run_table(Kind::Rhct, Ctor::Rhct(1), vec![Op::RhctIsa(v as u32)]),
             Site::RhctHartOffsets => run_table(Kind::Rhct, Ctor::Rhct(1), vec![Op::RhctIsa(4), Op::RhctCmo(1, 2, 3), Op::RhctHart { uid: 1, isa: 0, cmos: vec![0; (v - 1) as usize] }]),
             Site::RqscVendorData => {
                 let r = rqsc::ResourceStructure::new(rqsc::ResourceType::Cache, 0, rqsc::ResourceID::VendorSpecific(0x80, vec![0x5a; v as usize]));
@@ -380,7 +380,7 @@ pub fn exercise(site: Site, v: u64) -> Outcome {
 /// sites whose generic driver cannot carry values beyond the op's own field width
 fn direct_exercise(site: Site, v: u64) -> Option<Outcome> {
     match site {
-        Site::RimtPlatformName if v > 65_535 => Some(
+        Site::RimtPlatformName if v > 0xffff_ffff => Some(
             match catch_unwind(AssertUnwindSafe(|| {
                 let mut t = acpi_tables::rimt::RIMT::new(*b"OEMIDX", *b"TABLEID0", 1);
                 t.add_platform(acpi_tables::rimt::Platform::new(1, text_of(v as usize), None));
@@ -390,7 +390,7 @@ fn direct_exercise(site: Site, v: u64) -> Option<Outcome> {
                 Ok(img) => Outcome::Returned(table_framing(Kind::Rimt, &img, &[]).or(Some("platform device with an over-long name accepted".into()))),
             },
         ),
-        Site::RhctIsaLength if v > 65_535 => Some(
+        Site::RhctIsaLength if v > 0xffff_ffff => Some(
             match catch_unwind(AssertUnwindSafe(|| {
                 let mut t = acpi_tables::rhct::RHCT::new(*b"OEMIDX", *b"TABLEID0", 1, 1);
                 t.add_isa_string(static_text(v as usize));
